@@ -158,8 +158,8 @@ pub fn eval(e: &Expr, env: &mut Env) -> MRes {
                 None => return Err(MErr::UnknownUserFunction(name.clone())),
             };
             let key = (name.clone(), arg_key(&arg));
-            let total: u32 = env.counts.iter().filter(|((f, _), _)| f == name).map(|(_, c)| *c).sum();
-            let cacheable_now = spec.cacheable && (spec.uncacheable_after == 0 || total < spec.uncacheable_after);
+            let cacheable_now = spec.cacheable
+                && (spec.uncacheable_after == 0 || env.counts.iter().filter(|((f, _), _)| f == name).map(|(_, c)| *c).sum::<u32>() < spec.uncacheable_after);
             if cacheable_now {
                 if let Some(v) = env.cache.get(&key) {
                     return Ok(v.clone());
